@@ -174,7 +174,7 @@ def _boundaries(packets):
         yield pos
 
 
-def run_one(kind, stream, cuts, idle_steps, settings, cb, split_at=None, resume_at=None):
+def run_one(kind, stream, cuts, idle_steps, settings, cb, split_at=None, resume_at=None, bystander=False):
     """split_at: byte offset (a packet boundary) at which the gateway drops the link; the rest of the stream arrives
     on the connection the client opens next."""
     async def scenario(sim):
@@ -215,7 +215,7 @@ def run_one(kind, stream, cuts, idle_steps, settings, cb, split_at=None, resume_
                 await asyncio.sleep(0)
         await asyncio.sleep(5.0 + 0.03 * len(stream) / 13)     # let a slow callback (0.02 s per message) drain the queue
         await sim.call("close")
-    return simgw.run_session(kind, scenario, client_kwargs=settings, recv_cb=cb)
+    return simgw.run_session(kind, scenario, client_kwargs=settings, recv_cb=cb, bystander=bystander)
 
 
 def run_shard(spec, acc):
@@ -281,9 +281,12 @@ def run_shard(spec, acc):
         want, undel = expected_messages(kind, packets, settings)
         bset = set(_boundaries(packets))
         for label, cuts, idle in segmentations(kind, packets, rng, quick):
-            sim, stats = run_one(kind, stream, cuts, idle, settings, cb)
+            by = label == "per_packet" or (label == "random" and rep % 2 == 0)      # some sessions next to an untouched second client
+            sim, stats = run_one(kind, stream, cuts, idle, settings, cb, bystander=by)
             inside = any(c not in bset for c in cuts)
             judge(sim, stats, want, acc, kind, label, cuts, settings, cb, stream, undel, inside)
+            if by and sim is not None and not stats["error"]:
+                simgw.judge_bystander(sim, acc, {"client": kind, "segmentation": label, "settings": repr(settings), "callback": cb})
         if True:
             # the link drops at a packet boundary in the middle of the stream (possibly inside a fast-packet message);
             # the rest arrives on the next connection: same decoder, same expected deliveries
